@@ -131,7 +131,11 @@ def cases(draw):
     n = draw(st.sampled_from([1, 1, 2, 3, 4]))
     params = [draw(one_param(i)) for i in range(n)]
     surface = draw(st.sampled_from(["check_prior"] * 4 + ["posterior"]))
-    return {"kind": "prior", "params": params, "surface": surface}
+    case = {"kind": "prior", "params": params, "surface": surface}
+    if draw(st.integers(0, 2)) == 0:
+        case["warmup"] = [draw(one_param(i)) for i in range(n)]
+        case["switch"] = draw(st.sampled_from(["assign", "in_place"]))
+    return case
 
 
 # ---------------------------------------------------------------------------------------------------
@@ -163,7 +167,26 @@ def check(case):
     M = _model(0)
     names = [p["name"] for p in params]
     prior = _prior_dict(params)
-    pid = PIDInterface(names, M, prior)
+    warm = case.get("warmup")
+    if warm:
+        # the interface object was used before with other prior specifications for the same parameter names; priors are
+        # read from the object's dictionary at every evaluation, so only the current specification may matter
+        res.label("interface_used_before_with_other_priors:" + case.get("switch", "assign"))
+        wp = [dict(w, name=p["name"]) for w, p in zip(warm, params)]
+        pid = PIDInterface(names, M, _prior_dict(wp))
+        with warnings.catch_warnings():
+            warnings.simplefilter("ignore")
+            with np.errstate(all="ignore"):
+                for w in wp:
+                    pid.check_prior({w["name"]: np.float64(w["value"])})
+                pid.check_prior({w["name"]: np.float64(w["value"]) for w in wp})
+        if case.get("switch") == "in_place":
+            pid.prior.clear()
+            pid.prior.update(prior)
+        else:
+            pid.prior = prior
+    else:
+        pid = PIDInterface(names, M, prior)
     ref_total = 0.0
     all_inside = True
     near = False
